@@ -1,7 +1,8 @@
 From Coq Require Import List NArith ZArith Bool.
 From LTV Require Import Common.Bytes.
 From LTV.C07 Require Import Model.
-From LTV.C14 Require Import Model Proofs ProofsB.
+From LTV.C07 Require Import StaticMap ProofsSafe.
+From LTV.C14 Require Import Model Proofs ProofsB ModelDht ProofsDht.
 Import ListNotations.
 Local Open Scope N_scope.
 
@@ -134,3 +135,87 @@ Theorem http_fault_only_from_decoder_partial : forall ih ev body ts,
   snd (http_receive_done ih ev body ts) = EvFault -> decode_stream body = Fault \/ decode_stream body = OutOfFuel.
 Proof. exact Proofs.http_fault_only_from_decoder. Qed.
 Print Assumptions http_fault_only_from_decoder_partial.
+
+(* DHT datagrams, from the raw bytes (static-map decoding by C07's sm_read with the real DhtMessage key table) *)
+Theorem dht_datagram_never_faults : forall own dgram, dht_datagram own dgram <> DFault.
+Proof. exact ProofsDht.dht_datagram_never_faults. Qed.
+Print Assumptions dht_datagram_never_faults.
+
+Theorem dht_envelope_never_faults : forall own dgram, short dgram -> dht_envelope own dgram <> DFault.
+Proof. exact ProofsDht.dht_envelope_never_faults. Qed.
+Print Assumptions dht_envelope_never_faults.
+
+Theorem dht_malformed_ignored : forall own dgram, sm_read dht dgram = Reject -> dht_envelope own dgram = DIgnore.
+Proof. exact ProofsDht.dht_malformed_ignored. Qed.
+Print Assumptions dht_malformed_ignored.
+
+Theorem dht_query_needs_envelope : forall own dgram id, dht_envelope own dgram = DQuery id ->
+  exists e rest t idb, sm_read dht dgram = Ok e rest /\ ent_raw_string e k_t = Some t /\ (length t <= 20)%nat /\
+    ent_raw_string e k_y = Some [ch_q] /\ ent_raw_string e k_a_id = Some idb /\ (id_size <= length idb)%nat /\
+    id = firstn id_size idb /\ bytes_eqb id own = false.
+Proof. exact ProofsDht.dht_query_needs_envelope. Qed.
+Print Assumptions dht_query_needs_envelope.
+
+Theorem dht_values_exact : forall dgram r, dht_reply_values dgram = Some r ->
+  exists e rest v, sm_read dht dgram = Ok e rest /\ ent_raw_list e k_r_values = Some v /\
+                   r = POk (spec_bencode (S (length v)) v).
+Proof. exact ProofsDht.dht_values_exact. Qed.
+Print Assumptions dht_values_exact.
+
+(* ut_pex, from the raw extension payload *)
+Theorem pex_never_faults : forall av maxsz payload, short payload -> pex_apply av maxsz payload <> PexFault.
+Proof. exact ProofsDht.pex_never_faults. Qed.
+Print Assumptions pex_never_faults.
+
+Theorem pex_exact : forall av maxsz payload av' ret, pex_apply av maxsz payload = PexDone av' ret ->
+  exists e rest, sm_read ext_pex payload = Ok e rest /\
+    match ent_raw_string e 0 with
+    | None => av' = av /\ ret = None
+    | Some [] => av' = av /\ ret = Some 1
+    | Some added => (av', ret) = (let '(a, r) := insert_available no_skip av maxsz (sort_and_unique (whole_records false added))
+                                  in (a, Some r))
+    end.
+Proof. exact ProofsDht.pex_exact. Qed.
+Print Assumptions pex_exact.
+
+Theorem pex_retained_usable_and_cap : forall av maxsz payload av' ret,
+  (forall a, In a av -> usable a) -> alen av <= maxsz ->
+  pex_apply av maxsz payload = PexDone av' ret ->
+  (forall a, In a av' -> usable a) /\ alen av' <= maxsz.
+Proof. exact ProofsDht.pex_retained_usable_and_cap. Qed.
+Print Assumptions pex_retained_usable_and_cap.
+
+(* PeerList with PeerInfo entries: the concrete loop is the abstract one instantiated with the PeerInfo decision *)
+Theorem insert_available_pi_projection : forall now av maxsz ps al,
+  fst (insert_available_pi now av maxsz ps al) = insert_available (skip_of now ps) av maxsz al.
+Proof. exact ProofsDht.insert_available_pi_projection. Qed.
+Print Assumptions insert_available_pi_projection.
+
+Theorem pi_retained_usable_and_cap : forall now av maxsz ps al,
+  (forall a, In a av -> usable a) ->
+  (forall a, In a (fst (fst (insert_available_pi now av maxsz ps al))) -> usable a) /\
+  alen (fst (fst (insert_available_pi now av maxsz ps al))) <= N.max (alen av) maxsz /\
+  (forall a, In a (fst (fst (insert_available_pi now av maxsz ps al))) -> In a av \/ In a al).
+Proof. exact ProofsDht.pi_retained_usable_and_cap. Qed.
+Print Assumptions pi_retained_usable_and_cap.
+
+Theorem pi_connected_never_added : forall now av maxsz ps al a p,
+  pi_find a ps = Some p -> pi_skips now p = true ->
+  In a (fst (fst (insert_available_pi now av maxsz ps al))) -> In a av.
+Proof. exact ProofsDht.pi_connected_never_added. Qed.
+Print Assumptions pi_connected_never_added.
+
+(* TrackerHttp with a second address family pending *)
+Theorem http_retry_fails_one_family : forall ih ev h body msg,
+  h_next h = true -> snd (http_receive_done ih ev body (h_ts h)) = EvFailure msg ->
+  snd (http_step ih ev h body) = HRetry /\
+  h_ts (fst (http_step ih ev h body)) = fst (http_receive_done ih ev body (h_ts h)) /\
+  h_next (fst (http_step ih ev h body)) = false.
+Proof. exact ProofsDht.http_retry_fails_one_family. Qed.
+Print Assumptions http_retry_fails_one_family.
+
+Theorem http_second_failure_after_success : forall ih ev h body msg,
+  h_next h = false -> h_last_ok h = true -> snd (http_receive_done ih ev body (h_ts h)) = EvFailure msg ->
+  snd (http_step ih ev h body) = HEv (EvSuccess []).
+Proof. exact ProofsDht.http_second_failure_after_success. Qed.
+Print Assumptions http_second_failure_after_success.
